@@ -120,3 +120,90 @@ pub broadcast proof fn lemma_skip_zero<A>(s: Seq<A>)
 {
     assert(s.skip(0) =~= s);
 }
+
+// ===== Part 3: what a sequentially consistent / linearizable order is (C14 / C08 vocabulary, shared so that
+// the inclusion lemma of C14 can speak about both; definitions only, nothing trusted) =====
+
+// ---- C14 vocabulary: what a sequentially consistent order is ----------------------------------------
+// `tail` is an interleaving of the per-thread sequences: for each thread, its completed operations
+// `rem[t]` in program order, optionally followed by its in-flight operation `inf[t]` (whose return
+// value is whatever the order assigns). Defined by the head of the order: the first element is the
+// next operation of some thread `t`, and the rest is an interleaving of what is left.
+pub open spec fn sc_head_completed<T, Op, Ret>(t: T, e: (Op, Ret), rem: Map<T, Seq<(Op, Ret)>>) -> bool {
+    rem.contains_key(t) && rem[t].len() > 0 && rem[t][0] == e
+}
+pub open spec fn sc_head_in_flight<T, Op, Ret>(t: T, e: (Op, Ret), rem: Map<T, Seq<(Op, Ret)>>, inf: Map<T, Op>) -> bool {
+    (!rem.contains_key(t) || rem[t].len() == 0) && inf.contains_key(t) && inf[t] == e.0
+}
+pub open spec fn sc_order<T, Op, Ret>(tail: Seq<(Op, Ret)>, rem: Map<T, Seq<(Op, Ret)>>, inf: Map<T, Op>) -> bool
+    decreases tail.len()
+{
+    if tail.len() == 0 {
+        forall|t: T| rem.contains_key(t) ==> #[trigger] rem[t].len() == 0
+    } else {
+        exists|t: T| #![trigger sc_head_completed(t, tail[0], rem)] #![trigger sc_head_in_flight(t, tail[0], rem, inf)]
+            (sc_head_completed(t, tail[0], rem) && sc_order(tail.drop_first(), rem.insert(t, rem[t].drop_first()), inf))
+            || (sc_head_in_flight(t, tail[0], rem, inf) && sc_order(tail.drop_first(), rem, inf.remove(t)))
+    }
+}
+
+
+// some legal SC order of (rem, inf) from `obj` starts with the next operation of thread `t`
+pub open spec fn sc_via<T, R: SequentialSpec>(t: T, tail: Seq<(R::Op, R::Ret)>, obj: R, rem: Map<T, Seq<(R::Op, R::Ret)>>, inf: Map<T, R::Op>) -> bool {
+    tail.len() > 0 && legal(obj, tail) && (
+        (sc_head_completed(t, tail[0], rem) && sc_order(tail.drop_first(), rem.insert(t, rem[t].drop_first()), inf))
+        || (sc_head_in_flight(t, tail[0], rem, inf) && sc_order(tail.drop_first(), rem, inf.remove(t))))
+}
+
+
+// Real-time precedence, as the tester can see it: an operation that recorded `cs` at its invocation may
+// be placed only when no peer operation with index <= cs[peer] is still waiting in `rem` (all of them
+// completed before this operation was invoked, so all of them must come earlier in the total order).
+pub open spec fn rt_ok<T, E>(cs: Map<T, usize>, rem: Map<T, Seq<(usize, E)>>) -> bool {
+    forall|p: T, j: int| #![trigger rem[p][j]]
+        cs.contains_key(p) && rem.contains_key(p) && 0 <= j < rem[p].len() ==> rem[p][j].0 > cs[p]
+}
+// the remaining operations of every thread carry strictly increasing history indices
+pub open spec fn idx_sorted<T, E>(rem: Map<T, Seq<(usize, E)>>) -> bool {
+    forall|p: T, i: int, j: int| #![trigger rem[p][i], rem[p][j]]
+        rem.contains_key(p) && 0 <= i < j < rem[p].len() ==> rem[p][i].0 < rem[p][j].0
+}
+// what the tester tests per peer: the NEXT remaining operation of the peer (if any) is later than cs[peer]
+pub open spec fn peer_ok<T, E>(p: T, cs: Map<T, usize>, rem: Map<T, Seq<(usize, E)>>) -> bool {
+    cs.contains_key(p) && rem.contains_key(p) && rem[p].len() > 0 ==> rem[p][0].0 > cs[p]
+}
+pub open spec fn lin_head_completed<T, Op, Ret>(t: T, e: (Op, Ret), rem: Map<T, Seq<(usize, (BTreeMap<T, usize>, Op, Ret))>>) -> bool {
+    rem.contains_key(t) && rem[t].len() > 0 && (rem[t][0].1.1, rem[t][0].1.2) == e
+    && rt_ok(rem[t][0].1.0@, rem.insert(t, rem[t].drop_first()))
+}
+pub open spec fn lin_head_in_flight<T, Op, Ret>(t: T, e: (Op, Ret), rem: Map<T, Seq<(usize, (BTreeMap<T, usize>, Op, Ret))>>, inf: Map<T, (BTreeMap<T, usize>, Op)>) -> bool {
+    (!rem.contains_key(t) || rem[t].len() == 0) && inf.contains_key(t) && inf[t].1 == e.0 && rt_ok(inf[t].0@, rem)
+}
+// `tail` is a linearization: an interleaving of the per-thread sequences (completed operations in
+// program order, optionally followed by the thread's in-flight operation) in which every operation
+// is placed after all peer operations that completed before its invocation.
+pub open spec fn lin_order<T, Op, Ret>(tail: Seq<(Op, Ret)>, rem: Map<T, Seq<(usize, (BTreeMap<T, usize>, Op, Ret))>>, inf: Map<T, (BTreeMap<T, usize>, Op)>) -> bool
+    decreases tail.len()
+{
+    if tail.len() == 0 {
+        forall|t: T| rem.contains_key(t) ==> #[trigger] rem[t].len() == 0
+    } else {
+        exists|t: T| #![trigger lin_head_completed(t, tail[0], rem)] #![trigger lin_head_in_flight(t, tail[0], rem, inf)]
+            (lin_head_completed(t, tail[0], rem) && lin_order(tail.drop_first(), rem.insert(t, rem[t].drop_first()), inf))
+            || (lin_head_in_flight(t, tail[0], rem, inf) && lin_order(tail.drop_first(), rem, inf.remove(t)))
+    }
+}
+
+// some legal linearization of (rem, inf) from `obj` starts with the next operation of thread `t`
+pub open spec fn lin_via<T, R: SequentialSpec>(t: T, tail: Seq<(R::Op, R::Ret)>, obj: R, rem: Map<T, Seq<(usize, (BTreeMap<T, usize>, R::Op, R::Ret))>>, inf: Map<T, (BTreeMap<T, usize>, R::Op)>) -> bool {
+    tail.len() > 0 && legal(obj, tail) && (
+        (lin_head_completed(t, tail[0], rem) && lin_order(tail.drop_first(), rem.insert(t, rem[t].drop_first()), inf))
+        || (lin_head_in_flight(t, tail[0], rem, inf) && lin_order(tail.drop_first(), rem, inf.remove(t))))
+}
+
+// every completed operation paired with its position in its thread's history (what `serialized_history`
+// hands to `serialize`; the positions are what the recorded last-completed maps refer to)
+pub open spec fn indexed<T, E>(hist: Map<T, Seq<E>>) -> Map<T, Seq<(usize, E)>> {
+    Map::new(hist.dom(), |t: T| Seq::new(hist[t].len(), |j: int| (j as usize, hist[t][j])))
+}
+
